@@ -14,7 +14,9 @@ EXTENDS Naturals, Sequences, FiniteSets, TLC, Functions
 Browsers == {"b1", "b2"}
 
 VARIABLES
-  cfg,      \* [pkce : BOOLEAN]
+  cfg,      \* [pkce : BOOLEAN, via : how the relying party was constructed - "oauth" (rp.NewRelyingPartyOAuth) | "oidc" (rp.NewRelyingPartyOIDC:
+            \*  discovery, ID token verified), disc : what the provider's discovery document lists as code_challenge_methods_supported -
+            \*  "s256" | "none" (member absent) | "plainOnly"]  - neither changes what the handlers owe
   jar,      \* browser |-> [st, pk]
   nAtt,     \* number of attempts started
   rviol
@@ -30,6 +32,8 @@ Tampers == {"asis", "dropState", "dropPkce", "otherKey", "swapNames", "truncate"
 \* the state parameter of the callback, relative to the state of attempt args.att: the very string, a proper prefix, the string plus a
 \* suffix, or the empty string
 Forms == {"exact", "prefix", "suffix", "empty"}
+\* how the callback reaches the RP: GET with the parameters in the query, or POST with the parameters in the body (response_mode=form_post)
+Methods == {"GET", "POST"}
 
 Apply(e) ==
   LET a == e.args  o == e.out IN
